@@ -19,8 +19,7 @@ MECHANISM = ["tx.sensitization_transform", "tx.sensitivity_transform", "props.se
              "props.avg_sensitivity", "props.sensitize", "logic.popcount"]
 RULE = ("case = (circuit, node[, endpoints]) per function; distinct = distinct tuple; non-trivial = the sensitisation "
         "table is neither all-zero nor all-one / the sensitivity is strictly between 0 and |startpoints|")
-ASSUMPTIONS = ["influence/avg_sensitivity are not demanded for a node that is itself a startpoint (the miter needs n strictly upstream)",
-               "SAT-backed functions run on the vendored DPLL stand-in with enumerated answers"]
+ASSUMPTIONS = ["SAT-backed functions run on the vendored DPLL stand-in with enumerated answers"]
 
 
 def bounds(tier):
@@ -265,7 +264,7 @@ def check_props(acc, desc, n, do_sensitize=True, variant=None):
                 acc.violation("props", "sensitivity-wrong", case, f"sensitivity({n}) = {got}, expected {want}")
         except Exception as e:  # noqa: BLE001
             acc.violation("props", f"sensitivity-raises:{common.exc_name(e)}", case, repr(e))
-        if n not in sp and pol != ("index", 1):
+        if pol != ("index", 1):
             acc.transitions += 2
             want_inf = {s: refsim.popcount(dif[s]) / (1 << k) for s in sp}
             try:
@@ -319,7 +318,7 @@ def check_props_multi(acc, desc, pair):
     want = {}
     for n in pair:
         sp, dif, _counts, _full = ref_sensitivity(c0, n)
-        if not sp or n in sp:
+        if not sp:
             return None
         want[n] = {s: refsim.popcount(dif[s]) / (1 << len(sp)) for s in sp}
     case = {"kind": "props-multi", "desc": desc, "nodes": list(pair)}
@@ -327,11 +326,15 @@ def check_props_multi(acc, desc, pair):
     satref.set_policy(("first",))
     try:
         inf = cg.props.influence(space.build(desc), list(pair), approx=False)
+        if len(pair) == 1 and inf and not isinstance(next(iter(inf.values())), dict):
+            inf = {pair[0]: inf}          # the result for a single node is documented to come back unwrapped
         if {k: dict(v) for k, v in inf.items()} != want:
             acc.violation("props", "influence-list-wrong", case, f"influence({list(pair)}) = {inf}, expected {want}")
             return True
         av = cg.props.avg_sensitivity(space.build(desc), list(pair), approx=False)
         wav = {n: sum(v.values()) for n, v in want.items()}
+        if len(pair) == 1 and isinstance(av, (int, float)):
+            av = {pair[0]: av}            # either form is accepted for a one-element list
         if set(av) != set(wav) or any(abs(av[n] - wav[n]) > 1e-12 for n in wav):
             acc.violation("props", "avg_sensitivity-list-wrong", case, f"avg_sensitivity({list(pair)}) = {av}, expected {wav}")
     except Exception as e:  # noqa: BLE001
@@ -358,6 +361,11 @@ def run_transforms(job, acc):
             if outs & (descend(c, n) | {n}):
                 nt |= bool(check_sensitization(acc, desc, n, None))
             down = sorted(outs & descend(c, n))
+            if n in outs:
+                # n itself among the selected endpoints: inverting n always changes it
+                nt |= bool(check_sensitization(acc, desc, n, [n]))
+                if down:
+                    nt |= bool(check_sensitization(acc, desc, n, [n, down[0]]))
             for eps in nonempty_subsets(down):
                 nt |= bool(check_sensitization(acc, desc, n, eps))
             if down and (_idx // job["of"]) % 4 == 0:
@@ -407,6 +415,9 @@ def run_props(job, acc):
             for pair in itertools.permutations(gates, 2):
                 if check_props_multi(acc, desc, pair):
                     acc.states += 1
+            for n1 in sorted(c.graph.nodes):
+                if c.graph.nodes[n1]["type"] not in ("0", "1") and check_props_multi(acc, desc, (n1,)):
+                    acc.states += 1       # a one-element list
         acc.sample({"desc": desc})
         if acc.out_of_time():
             break
